@@ -1205,3 +1205,80 @@ Proof. intros H. destruct (poly_hyps_split _ _ _ H) as [A [B C]]. apply poly_thi
 Lemma poly_thick_rects_tr_hyps w d pts : poly_hyps pts w d = true ->
   poly_thick_rects (map (tr_pt d) pts) w = option_map (map (fun r => translate_rect r d)) (poly_thick_rects pts w).
 Proof. intros H. destruct (poly_hyps_split _ _ _ H) as [A [B C]]. apply poly_thick_rects_tr; assumption. Qed.
+
+(* ================================================================================================ *)
+(* (7) C02: the bounding box of a thick stroke contains the corners of its segments                  *)
+(* ================================================================================================ *)
+
+Definition ple (a b : point) : Prop := px a <= px b /\ py a <= py b.
+
+Lemma contains_with_corners m M p : ple m p -> ple p M -> contains (with_corners m M) p = true.
+Proof.
+  intros [A1 A2] [B1 B2]. apply contains_spec.
+  unfold with_corners, size_from_bounding_box; cbn [tl sz sw sh px py]. lia.
+Qed.
+
+(* the fold never loses a segment: the accumulated corners bound the corners of every segment folded in *)
+Lemma bb_fold_mono : forall segs acc,
+  ple (fst (fold_left bb_step segs acc)) (fst acc) /\ ple (snd acc) (snd (fold_left bb_step segs acc)).
+Proof.
+  induction segs as [|s rest IH]; intros acc; [cbn [fold_left]; unfold ple; lia|].
+  cbn [fold_left]. destruct (IH (bb_step acc s)) as [[A1 A2] [B1 B2]].
+  set (F := fold_left bb_step rest (bb_step acc s)) in *.
+  rewrite bb_step_corners in A1, A2, B1, B2. cbn [fst snd] in *.
+  unfold ple, component_min, component_max in *; cbn [px py] in *. lia.
+Qed.
+
+Lemma bb_fold_bounds : forall segs acc seg, In seg segs ->
+  ple (fst (fold_left bb_step segs acc)) (component_min (fst (ebb_corners seg)) (snd (ebb_corners seg))) /\
+  ple (component_max (fst (ebb_corners seg)) (snd (ebb_corners seg))) (snd (fold_left bb_step segs acc)).
+Proof.
+  induction segs as [|s rest IH]; intros acc seg H; [destruct H|].
+  cbn [fold_left]. destruct H as [<-|H]; [|apply IH; exact H].
+  destruct (bb_fold_mono rest (bb_step acc s)) as [[A1 A2] [B1 B2]].
+  set (F := fold_left bb_step rest (bb_step acc s)) in *.
+  rewrite bb_step_corners in A1, A2, B1, B2. cbn [fst snd] in *.
+  unfold ple, component_min, component_max in *; cbn [px py] in *. lia.
+Qed.
+
+(* the four corners of a thick segment *)
+Definition seg_corner (t : thick_segment) (p : point) : Prop :=
+  p = l_start (fst (ts_edges t)) \/ p = l_end (fst (ts_edges t)) \/
+  p = l_start (snd (ts_edges t)) \/ p = l_end (snd (ts_edges t)).
+(* ... and the two of its left edge *)
+Definition seg_left_corner (t : thick_segment) (p : point) : Prop :=
+  p = l_start (snd (ts_edges t)) \/ p = l_end (snd (ts_edges t)).
+
+Lemma ebb_corners_cover t p :
+  (is_skeleton t = false /\ seg_corner t p) \/ (is_skeleton t = true /\ seg_left_corner t p) ->
+  ple (component_min (fst (ebb_corners t)) (snd (ebb_corners t))) p /\
+  ple p (component_max (fst (ebb_corners t)) (snd (ebb_corners t))).
+Proof.
+  unfold ebb_corners, seg_corner, seg_left_corner. destruct (ts_edges t) as [r l]. cbn [fst snd].
+  intros [[E H]|[E H]]; rewrite E; cbn [fst snd]; unfold ple, component_min, component_max; cbn [px py].
+  - destruct H as [-> | [-> | [-> | ->]]]; repeat split; lia.
+  - destruct H as [-> | ->]; repeat split; lia.
+Qed.
+
+(* every corner of every non-skeleton segment, and the left edge of every skeleton segment, is inside the box *)
+Lemma segments_bounding_box_contains segs seg p : In seg segs ->
+  (is_skeleton seg = false /\ seg_corner seg p) \/ (is_skeleton seg = true /\ seg_left_corner seg p) ->
+  contains (segments_bounding_box segs) p = true.
+Proof.
+  intros I H. rewrite segments_bounding_box_fold.
+  destruct (bb_fold_bounds segs (P i32_max i32_max, P i32_min i32_min) seg I) as [[A1 A2] [B1 B2]].
+  destruct (ebb_corners_cover seg p H) as [[C1 C2] [D1 D2]].
+  apply contains_with_corners; unfold ple; lia.
+Qed.
+
+(* the class of the recorded defect: a segment of a stroke wider than 1 px that is taken for a skeleton *)
+Definition K02_thick_skeleton_bbox (segs : list thick_segment) : bool := existsb is_skeleton segs.
+
+Lemma segments_bounding_box_contains_all segs seg p :
+  K02_thick_skeleton_bbox segs = false -> In seg segs -> seg_corner seg p ->
+  contains (segments_bounding_box segs) p = true.
+Proof.
+  intros K I C. apply (segments_bounding_box_contains segs seg p I). left. split; [|exact C].
+  unfold K02_thick_skeleton_bbox in K. destruct (is_skeleton seg) eqn:E; [|reflexivity].
+  assert (existsb is_skeleton segs = true) by (apply existsb_exists; exists seg; split; assumption). congruence.
+Qed.
